@@ -201,6 +201,25 @@ func execC19(c C19Case, bound time.Duration) (facts map[string]bool, err error) 
 	}
 	m := modelAddress(addr)
 	facts["class:"+m.class] = true
+	// a bystander: an ordinary file in the working directory whose name equals the abstract name or the
+	// host:port. Neither kind of address names anything in the filesystem, so it must survive untouched.
+	bystander := ""
+	if (m.abstract || m.proto == "tcp") && m.target != "" && m.target != "." && m.target != ".." && !strings.ContainsAny(m.target, "/\x00") && len(m.target) < 200 && len(addr)%3 != 0 {
+		bystander = filepath.Join(dir, m.target)
+		if werr := os.WriteFile(bystander, []byte("bystander"), 0o600); werr != nil {
+			bystander = ""
+		} else {
+			facts["bystander-file"] = true
+			defer func() {
+				if err != nil {
+					return
+				}
+				if b, rerr := os.ReadFile(bystander); rerr != nil || string(b) != "bystander" {
+					err = fmt.Errorf("%s(%q) touched the ordinary file %q in the working directory (now: %v): this address names nothing in the filesystem", c.Op, addr, m.target, rerr)
+				}
+			}()
+		}
+	}
 	token := "token-" + u
 	svc, nerr := varlink.NewService(token, "p", "1", "u")
 	if nerr != nil {
@@ -377,7 +396,7 @@ func execC19(c C19Case, bound time.Duration) (facts map[string]bool, err error) 
 					return facts, fmt.Errorf("%s(%q) succeeded but %q is not a socket in the filesystem", c.Op, addr, p)
 				}
 			}
-			if m.abstract && m.class == "strict" {
+			if m.abstract && m.class == "strict" && bystander == "" {
 				if _, serr := os.Lstat(filepath.Join(dir, m.target)); serr == nil {
 					svc.Shutdown()
 					return facts, fmt.Errorf("%s(%q): an abstract address created the file %q", c.Op, addr, m.target)
